@@ -2,7 +2,7 @@
    Print Assumptions. *)
 From Coq Require Import ZArith QArith List Bool.
 From Centro Require Import Base.VecC13 Model.Circle Model.CircleVec Model.Feret Model.HullFill Spec.MecSpec Spec.ChrystalHyp Spec.FeretSpec Spec.FeretLower Spec.FillSpec
-  Proofs.MecProofs Proofs.CircleProofs Proofs.ChrystalFull Proofs.CircleVecProofs Proofs.CircleVecStep Proofs.FeretProofs Proofs.FeretLowerProofs Proofs.SweepProofs Proofs.FillProofs Proofs.FillEdgeProofs Proofs.FillModelProofs.
+  Proofs.MecProofs Proofs.CircleProofs Proofs.ChrystalFull Proofs.ChrystalHull Spec.HullSpec Proofs.CircleVecProofs Proofs.CircleVecStep Proofs.FeretProofs Proofs.FeretLowerProofs Proofs.SweepProofs Spec.CalipersHyp Spec.FeretBrute Proofs.CalipersMax Proofs.CalipersMin Proofs.CalipersFull Proofs.CalipersHull Proofs.SweepFloat Proofs.FillProofs Proofs.FillEdgeProofs Proofs.FillModelProofs.
 
 (* Full.  Soundness of the certificate checker that is run on the exact circle reconstructed from
    the implementation's output: the circle contains every pixel centre of S and no circle
@@ -49,6 +49,26 @@ Theorem C14_chrystal_reaches_certificate : forall h,
     MEC h (inject_Z ny / inject_Z d) (inject_Z nx / inject_Z d) (inject_Z rn / inject_Z (d * d)).
 Proof. exact chrystal_reaches_certificate. Qed.
 Print Assumptions C14_chrystal_reaches_certificate.
+
+(* Full (C14 x C02).  Every non-empty vertex list V that meets C02's hull specification for a pixel
+   set S (vertices are pixels, no repeats, every cyclically consecutive triple turns strictly in
+   one sense, every pixel on the inner side of every edge) satisfies chrystal_hyp_ok: no three
+   vertices are collinear (a middle one would be a proper convex combination of two pixels,
+   contradicting C02_vertex_extreme) and the first edge supports the whole set. *)
+Theorem C14_hull_satisfies_chrystal_hyp : forall S V,
+  HullSpec S V -> V <> nil -> chrystal_hyp_ok V = true.
+Proof. exact hull_satisfies_chrystal_hyp. Qed.
+Print Assumptions C14_hull_satisfies_chrystal_hyp.
+
+(* Full.  Hence Chrystal's iteration reaches the minimum enclosing circle of the hull vertices for
+   every hull that convex_hull can hand to minimum_enclosing_circle under C02's specification. *)
+Theorem C14_chrystal_on_every_hull : forall S V,
+  HullSpec S V -> V <> nil ->
+  exists ny nx d rn,
+    chrystal V = CCircle ny nx d rn /\
+    MEC V (inject_Z ny / inject_Z d) (inject_Z nx / inject_Z d) (inject_Z rn / inject_Z (d * d)).
+Proof. exact (fun S V H N => chrystal_reaches_certificate V (hull_satisfies_chrystal_hyp S V H N)). Qed.
+Print Assumptions C14_chrystal_on_every_hull.
 
 (* ---- the vectorised bookkeeping of minimum_enclosing_circle (Model/CircleVec.v: global hull rows,
    point_index = offsets, anti_indexes_per_point = anti_index gather, within_label_indexes, global
@@ -148,21 +168,84 @@ Theorem C14_sweep_advance_test_exact : forall n1 n2 den : Z, (0 < den)%Z ->
 Proof. exact advance_test_exact. Qed.
 Print Assumptions C14_sweep_advance_test_exact.
 
-(* Partial (calipers = brute force).  Proved about the executable model of the antipodal sweep, for
-   every vertex list: it terminates (above), it only records pairs of valid, distinct hull indices,
-   and so the maximum it reports never exceeds the largest pairwise distance.  Missing, by name:
-   diameter_is_antipodal (a farthest pair of a convex polygon admits parallel supporting lines),
-   sweep_antipodal_complete (for a strictly convex cycle in either orientation the recorded pairs
-   contain every antipodal vertex pair), and width_at_antipodal_edge (the narrowest edge strip is
-   found at a vertex having both end points of that edge as antipodes) - the rotating-calipers
-   invariant.  Instead, on every run the model's maximum and minimum are compared with brute force
-   on the same vertex list (any disagreement is reported as a refutation; none in 30 000+ calls),
-   and the implementation's values are certified against the object's full pixel set by the
-   verified checkers max_d2 / feret_min_ok / feret_lower_ok. *)
-Theorem C14_calipers_eq_bruteforce_partial : forall h mx mn,
-  sweep h = Some (mx, mn) -> (mx <= max_d2 h)%Z.
-Proof. exact sweep_max_sound. Qed.
-Print Assumptions C14_calipers_eq_bruteforce_partial.
+(* Full, relative to an abstract model of binary64 rounding.  For EVERY rounding operator that is
+   monotone and has relative error at most 2^-53 on non-negative arguments (round-to-nearest
+   division of doubles without underflow is one), the code's comparison of the two rounded quotients
+   fl(n1/den) <= fl(n2/den) is the integer comparison n1 <= n2 that the model performs, whenever
+   the numerators (squared cross products, exact in double arithmetic) are below 2^52.  Trusted, not
+   proved: that IEEE-754 division satisfies the two hypotheses. *)
+Theorem C14_sweep_float_compare_exact : forall rnd : Q -> Q,
+  (forall x y, (x <= y)%Q -> (rnd x <= rnd y)%Q) ->
+  (forall x, (0 <= x)%Q -> (x * (1 - eps) <= rnd x)%Q /\ (rnd x <= x * (1 + eps))%Q) ->
+  forall n1 n2 den : Z,
+    (0 <= n1 < 4503599627370496)%Z -> (0 <= n2 < 4503599627370496)%Z -> (0 < den)%Z ->
+    ((rnd (inject_Z n1 / inject_Z den) <= rnd (inject_Z n2 / inject_Z den))%Q <-> (n1 <= n2)%Z).
+Proof. exact float_compare_exact. Qed.
+Print Assumptions C14_sweep_float_compare_exact.
+
+(* Full (calipers = brute force, maximum).  For every strictly convex vertex cycle, in either
+   orientation and from any starting vertex (strict_convex_ok: every other vertex strictly on one
+   side of every edge), the maximum reported by the antipodal sweep as written IS the largest
+   pairwise squared distance: a farthest pair is antipodal (diameter_antipodal_1/2: sign conditions
+   on the edge directions at the pair, from the half-plane conditions and |.| <= diameter), the
+   distance to an edge's line has no valley along the cycle (no_valley, by Cramer's rule in the
+   cone of a vertex), and therefore the sweep's staircase path cannot step past the pair
+   (row / column lemmas, a0 <= q, path_reaches).  The hypothesis is evaluated on every run's hulls. *)
+Theorem C14_calipers_max_eq_bruteforce : forall h mx mn,
+  strict_convex_ok h = true -> sweep h = Some (mx, mn) -> mx = max_d2 h.
+Proof. exact sweep_max_complete. Qed.
+Print Assumptions C14_calipers_max_eq_bruteforce.
+
+(* Full (minimum construction, soundness).  For every strictly convex vertex cycle: every distance
+   the code keeps as a candidate for the minimum Feret diameter - vertex v to the line through hull
+   points a and a+1 (mod n), kept when both a and a+1 are antipodes of v in the symmetric closure of
+   the recorded pairs - is the FULL width of the strip resting on edge a -> a+1: no vertex k is
+   farther from that line.  (Every recorded pair is antipodal - loop_anti - and a vertex where the
+   distance to an edge neither increases on leaving nor decreases on arriving is a global maximum -
+   local_max_global, Cramer's rule in the vertex cone.)  So the reported minimum is never smaller
+   than the narrowest edge strip. *)
+Theorem C14_calipers_min_candidates_are_widths : forall h ps v a k,
+  strict_convex_ok h = true -> antipodal_pairs h = Some ps ->
+  (In (v, a) ps \/ In (a, v) ps) ->
+  (In (v, nxt (length h) a) ps \/ In (nxt (length h) a, v) ps) -> (k < length h)%nat ->
+  (cross2 (pnth k h) (pnth a h) (pnth (nxt (length h) a) h) <=
+   cross2 (pnth v h) (pnth a h) (pnth (nxt (length h) a) h))%Z.
+Proof. exact min_candidates_are_widths. Qed.
+Print Assumptions C14_calipers_min_candidates_are_widths.
+
+(* Full (calipers = brute force).  For every strictly convex vertex cycle, either orientation, any
+   starting vertex: the antipodal sweep as written, with the code's construction of the minimum
+   (symmetric closure of the recorded pairs, the extra index `count` for vertex 0, "second antipode
+   is one less than its successor"), returns exactly the brute-force values - the largest pairwise
+   squared distance, and (as a rational) the smallest over all edges of the largest squared
+   distance of a vertex to the edge's line.  Ingredients: no_valley and local_max_global (Cramer's
+   rule in a vertex cone), diameter_antipodal_1/2, the staircase lemmas (row / column / a0 <= q,
+   loop_anti: every recorded pair is antipodal, loop_structure: one column step per column, one row
+   step per row, last row >= a0), every_edge_has_candidate, candidates_are_widths, and the qmin
+   fold calculus.  (The three lemmas named missing in round 2 correspond to diameter_antipodal_1/2,
+   farthest_recorded + recorded_antipodal + every_edge_has_candidate, and candidates_are_widths.) *)
+Theorem C14_calipers_eq_bruteforce : forall h mx mq,
+  strict_convex_ok h = true -> sweep h = Some (mx, mq) ->
+  mx = max_d2 h /\
+  exists bq, bf_min h = Some bq /\ (0 < snd mq)%Z /\ (0 < snd bq)%Z /\ (fst mq * snd bq = fst bq * snd mq)%Z.
+Proof. exact calipers_eq_bruteforce. Qed.
+Print Assumptions C14_calipers_eq_bruteforce.
+
+(* Full (C14 x C02).  Every hull polygon with at least three vertices that meets C02's specification
+   is strictly convex in the sense of strict_convex_ok (C02 gives every pixel weakly on the inner
+   side of every edge; the vertices are in general position by C14_hull_satisfies_chrystal_hyp's
+   argument, so the other vertices are strictly inside), hence the calipers theorem holds for every
+   hull convex_hull can hand to feret_diameter. *)
+Theorem C14_hull_is_strictly_convex : forall PS V,
+  HullSpec PS V -> (3 <= length V)%nat -> strict_convex_ok V = true.
+Proof. exact hull_strictly_convex. Qed.
+Print Assumptions C14_hull_is_strictly_convex.
+
+(* Full.  One- and two-vertex hulls (and the empty one): the sweep is not entered; the maximum is the
+   pairwise maximum and the minimum is 0. *)
+Theorem C14_calipers_small_hulls : forall h, (length h <= 2)%nat -> sweep h = Some (max_d2 h, (0, 1)%Z).
+Proof. exact calipers_small. Qed.
+Print Assumptions C14_calipers_small_hulls.
 
 (* Full.  Soundness of the fill checker run on the implementation's output: the rows are pairwise
    distinct and are exactly the lattice points (i,j) inside or on the polygon H of some object,
